@@ -145,7 +145,10 @@ def run_native(prop, h, cex, ob_or_none, timeout=120):
     try:
         testfile = os.path.join(work, "zz_verif_replay_test.go")
         with open(testfile, "w") as f:
-            f.write("//go:build verif\n\npackage %s\n\nimport \"testing\"\n\nfunc TestVerifReplay(t *testing.T) {\n\t%s()\n}\n" % (pkgname, fname))
+            if h.get("synctest"):
+                f.write("//go:build verif\n\npackage %s\n\nimport (\n\t\"testing\"\n\t\"testing/synctest\"\n)\n\nfunc TestVerifReplay(t *testing.T) {\n\tsynctest.Run(func() { %s() })\n}\n" % (pkgname, fname))
+            else:
+                f.write("//go:build verif\n\npackage %s\n\nimport \"testing\"\n\nfunc TestVerifReplay(t *testing.T) {\n\t%s()\n}\n" % (pkgname, fname))
         ov = {"Replace": dict(harness_overlay(prop))}
         ov["Replace"][os.path.join(pkgdir, "zz_verif_replay_test.go")] = testfile
         for virt, real in (h.get("replay_overlay") or {}).items():
@@ -155,6 +158,8 @@ def run_native(prop, h, cex, ob_or_none, timeout=120):
             json.dump(ov, f)
         env = go_env()
         env["VERIF_CEX"] = cex
+        if h.get("synctest"):
+            env["GOEXPERIMENT"] = "synctest"
         cmd = ["go", "test", "-tags", "verif", "-vet=off", "-count=1", "-overlay", ovpath, "-run", "^TestVerifReplay$", "-v", "-timeout", "%ds" % timeout, "./" + rel if rel else "."]
         try:
             r = subprocess.run(cmd, cwd=REPO, env=env, capture_output=True, text=True, timeout=timeout + 120)
